@@ -8,10 +8,15 @@
     owner ([freed_unassigned]).
 
     Two genuine defects of galaxy-ipam limit the histories for which this holds (both reproduced on
-    the real code and recorded as known findings K3 / K3b); they appear as the state conditions
-    [k3_free] and [k3b_free] of [wf_c10]: the theorems say the calls are well ordered in every
-    history that never takes one of those two steps, and Props/C10.v gives the refuting histories
-    that do.  Store-call failures inside Bind AFTER a successful AssignIP are outside the property's
+    the real code and recorded as known findings K3 / K3b).  K3 is open and appears as the state
+    condition [k3_free] of [wf_c10]: the theorems say the calls are well ordered in every history
+    that never takes such a step, and Props/C10.v gives a refuting history that does.  K3b is
+    repaired (with a provider a resync item unassigns every IP of the key that has a node stored
+    before the key's IPs are cleared and released / reserved; an API release clears the node of the
+    one IP it unassigned): resync items and API releases carry no condition any more; [k3b_free]
+    is kept only to state what the code did before the repair (Proofs/PluginC10P.v,
+    [resync_section_old]).
+    Store-call failures inside Bind AFTER a successful AssignIP are outside the property's
     fault quantifier (provider calls failing cleanly) and are excluded by [f_update = None]. *)
 From Coq Require Import String.
 From stdpp Require Import gmap.
@@ -52,7 +57,9 @@ Definition freed_unassigned (w w' : world) : Prop :=
 Definition k3_free (w : world) (ns name node : str) : Prop :=
   ∀ l x e n, w_lister w !! (ns, name) = Some l → i_alloc (w_ipam w) !! x = Some e → e_key e = pod_key l →
              w_cloud w !! x = Some n → n = node.
-(** K3b-free: a resync item / API release of [ip] happens only when no OTHER IP of the same key is On a node *)
+(** K3b-free: a resync item / API release of [ip] happens only when no OTHER IP of the same key is On a node.
+    This was the condition of [wf_c10] for the code BEFORE the K3b repair; it is kept for the statement about the old
+    behaviour ([resync_section_old] in Proofs/PluginC10P.v) and no longer occurs in [wf_c10]. *)
 Definition k3b_free (w : world) (ip : N) : Prop :=
   ∀ e y e' n, i_alloc (w_ipam w) !! ip = Some e → y ≠ ip → i_alloc (w_ipam w) !! y = Some e' → e_key e' = e_key e →
               w_cloud w !! y = Some n → False.
@@ -64,8 +71,6 @@ Definition wf_c10 (w : world) (o : pop) : Prop :=
   wf_op w o ∧
   match o with
   | PBind ns name uid node orc fl => node ≠ [] ∧ f_update fl = None ∧ k3_free w ns name node
-  | PResync ip _ _ _ => k3b_free w ip
-  | PApiRelease _ ip _ _ => k3b_free w ip
   | PIpam (OConfigure conf _ _) => keeps_assigned w conf
   | PRestart conf => keeps_assigned w conf
   | _ => True
